@@ -112,7 +112,16 @@ def run_net(spec):
     x[0, :, -1, -1] = 0.0
     try:
         net = build(spec, torch, nn).eval()
-        mps = MPS(net, input_shape=(spec['cin'], H, W), qinfo=get_default_qinfo((spec['wbits'],), (spec['abits'],)))
+        aprec = tuple(spec['amix']) if spec.get('amix') else (spec['abits'],)
+        mps = MPS(net, input_shape=(spec['cin'], H, W), qinfo=get_default_qinfo((spec['wbits'],), aprec))
+        if len(aprec) > 1:
+            # mixed activation precisions: every activation selector gets its own (seeded) winner
+            for n, prm in mps.named_parameters():
+                if n.endswith('alpha') and prm.numel() > 1 and ('out_mps_quantizer' in n or 'in_mps_quantizer' in n):
+                    k = rng.randrange(prm.numel())
+                    with torch.no_grad():
+                        prm.fill_(0.1)
+                        prm[k] = 5.0
         # diversify the learned clip values (s_y, s_x): every PACT quantizer gets its own clip
         for n, m in mps.named_modules():
             if isinstance(m, PACTAct):
